@@ -14,6 +14,6 @@ prop("C06",
      per_op_timeout="120s",
      dedup=lambda m: (m["ops"][-1].split(" ")[0], m["go"].split(" ")[0], m["model"].split(" ")[0], m["model"].split(" ")[-1][:20]),
      why=("the Lean model (Impl/PN.lean, Impl/DFPN.lean) mirrors the solvers and its verdicts are compared with the game-theoretic truth computed by retrograde "
-          "analysis / bounded exhaustive search (Spec/GameTruth.lean); Props/C06.lean proves that zero proof/disproof numbers in the model are sound. "
+          "analysis / bounded exhaustive search (Spec/GameTruth.lean); Props/C06.lean proves that zero proof/disproof numbers in the PN model are sound, Props/C06_dfpn.lean that the DFPN model's 'proven' is sound and its 'disproven' while no repetition was met (otherwise only the truth comparison guards it). "
           "A `truth=bad:...` field in the model output means the solver's verdict contradicts the truth on this input; any other difference means the real "
           "code left the proved model"))
